@@ -80,6 +80,35 @@ def trace(data: Any, opts: Dict[str, bool], n_hint: int, counting: bool = False)
     return out, getattr(tok, 'steps', 0)
 
 
+def lookahead_trace(data: Any, opts: Dict[str, bool], n_hint: int) -> list:
+    """The same token stream read through the look-ahead interface: peek() before every token, and every third token
+    pushed back and read again.  Returns [(token, value)...] (line numbers are not compared: looking ahead moves them)."""
+    from srctools.tokenizer import Tokenizer, Token, TokenSyntaxError
+    out: list = []
+    try:
+        tok = Tokenizer(data, **opts)
+        for k in range(n_hint + 8):
+            p = tok.peek()
+            t = tok()
+            if p != t:
+                out.append(('PEEK-DIFFERS', p, t))
+                break
+            if k % 3 == 2 and t[0] is not Token.EOF:
+                tok.push_back(*t)
+                t2 = tok()
+                if t2 != t:
+                    out.append(('PUSHBACK-DIFFERS', t, t2))
+                    break
+            out.append((t[0], t[1]))
+            if t[0] is Token.EOF:
+                break
+    except TokenSyntaxError as exc:
+        out.append(('ERR', type(exc).__name__, str(exc.mess)))
+    except Exception as exc:
+        out.append(('BAD-EXC', type(exc).__name__, str(exc)))
+    return out
+
+
 def check_trace_sanity(run, text: str, opts, tr: list, steps: int, engine: str) -> None:
     from srctools.tokenizer import Token
     case = {'text': text, 'opts': _optbits(opts)}
@@ -303,6 +332,19 @@ def random_docs(run, shard, thorough: bool) -> None:
             nt = nt or cut_inside_construct(text, [c for c in ch if c])
             dl.append(('chunks', ch))
         compare_deliveries(run, text, opts, ref, dl, 'random')
+        # the look-ahead interface gives the same tokens and the same error
+        want_la = [(r[0], r[1]) for r in ref if r[0] not in ('ERR', 'BAD-EXC', 'NO-EOF')]
+        while len(want_la) > 1 and want_la[-1][0] == want_la[-2][0] and getattr(want_la[-1][0], 'name', '') == 'EOF':
+            want_la.pop()
+        if ref and ref[-1][0] == 'ERR':
+            want_la.append(('ERR', ref[-1][1], ref[-1][2]))
+        got_la = lookahead_trace(random_chunks(rng, text, 9), opts, len(text))
+        run.count('lookahead_traces')
+        if got_la != want_la and not (ref and ref[-1][0] in ('BAD-EXC', 'NO-EOF')):
+            k = next((j for j, (a, b) in enumerate(zip(want_la, got_la)) if a != b), min(len(want_la), len(got_la)))
+            run.violation(f'reading through peek()/push_back() changes the token stream at token {k}',
+                          witness={'want': _show(want_la[max(0, k - 2):k + 3]), 'got': _show(got_la[max(0, k - 2):k + 3])},
+                          case={'text': text, 'opts': _optbits(opts)}, engine='random', key='lookahead-changes-stream')
         run.case([text, _optbits(opts)], nt, sample={'text': text, 'opts': _optbits(opts), 'tokens': len(ref)} if i < 2 else None, tag='random')
         kv_parse(run, rng, text, 'random-kv')
 
@@ -467,7 +509,7 @@ def main(run, shard=(0, 1)) -> None:
     long_runs(run, shard, thorough)
     run.sample({'text': '"a\r', 'chunks': ['"a', '\r'], 'opts': '0010000'}, 'exhaustive')
     probe.check_reached(run)
-    run.require('long_run_texts', 'real_file_deliveries', 'exhaustive_text_x_options', 'focused_text_x_options', 'deliveries_compared', 'kv_parse_calls', 'kv_exhaustive_texts_x_options')
+    run.require('lookahead_traces', 'long_run_texts', 'real_file_deliveries', 'exhaustive_text_x_options', 'focused_text_x_options', 'deliveries_compared', 'kv_parse_calls', 'kv_exhaustive_texts_x_options')
 
 
 def replay(run, data) -> None:
